@@ -72,7 +72,9 @@ def run_case(case: dict) -> CaseResult:
         if len(chunk) == 0:
             classes.add("empty_chunk")
         try:
-            h.data_received(fstub.as_kind(chunk, kind))
+            obj, recycle = fstub.as_kind_recycled(chunk, kind)
+            h.data_received(obj)
+            recycle()  # the caller owns its receive buffer again: whatever the helper retains must be a copy
         except Exception as e:  # noqa: BLE001
             res.violations.append(
                 Violation(ID, f"c01:data_received-raised:{type(e).__name__}", f"chunk {i} len {len(chunk)}: {e!r}")
